@@ -175,7 +175,7 @@ package network
 // Fast solver: the state arrays are distinct, of the declared size, and the counters are consistent.
 //@ pred solverWF(s *FastModularNetworkSolver) = 0 <= s.biasNeuronCount && 0 <= s.inputNeuronCount && s.sensorNeuronCount == s.biasNeuronCount + s.inputNeuronCount && 0 <= s.outputNeuronCount && s.sensorNeuronCount + s.outputNeuronCount <= s.totalNeuronCount && len(s.neuronSignals) == s.totalNeuronCount && len(s.neuronSignalsBeingProcessed) == s.totalNeuronCount && len(s.activated) == s.totalNeuronCount && len(s.inActivation) == s.totalNeuronCount && len(s.lastActivation) == s.totalNeuronCount && (s.totalNeuronCount > 0 ==> base(s.neuronSignals) != base(s.neuronSignalsBeingProcessed) && base(s.neuronSignals) != base(s.lastActivation) && base(s.neuronSignalsBeingProcessed) != base(s.lastActivation) && base(s.activated) != base(s.inActivation))
 //@ func (*FastModularNetworkSolver).Flush
-//@   props C13
+//@   props C13 C12
 //@   requires s != nil && solverWF(s)
 //@   modifies Mem[float64]
 //@   noalloc
